@@ -28,6 +28,8 @@ def nominal_requests():
                              "blocks": [b1.hex(), b2.hex()], "brothers": [[br.hex()], []]}
     R["advance-nobrothers"] = {"command": "advanceBlockchain", "version": 5,
                                "blocks": [b1.hex(), b2.hex()], "brothers": [[], []]}
+    R["advance-partial"] = {"command": "advanceBlockchain", "version": 5,
+                            "blocks": [b2.hex(), b1.hex()], "brothers": [[], [br.hex()]]}
     R["updateAncestor"] = {"command": "updateAncestorBlock", "version": 5,
                            "blocks": [u1.hex(), u2.hex()]}
     R["reset"] = {"command": "resetAdvanceBlockchain", "version": 5}
@@ -38,6 +40,16 @@ def nominal_requests():
     R["v1-getPubKey"] = {"command": "getPubKey", "version": 1, "keyId": P[3]}
     R["v1-sign"] = reqs.sign_request(P[5], hash_hex=rng.bytes(32).hex(), version=1)
     return R
+
+
+# per-dialogue configuration of the conforming device (attribute -> value)
+DEVCFG = {"advance-partial": {"advance_final": "partial"}}
+
+
+def configure(dev, name):
+    for k, v in DEVCFG.get(name, {}).items():
+        setattr(dev, k, v)
+    return dev
 
 
 def command_of(name, req):
